@@ -103,7 +103,7 @@ def actualState (h : HubSt) (e : HubEnv) : Res HubSt :=
 /-- stable insertion sort, descending by amount (`sort_by(|a,b| b.cmp(a))`) -/
 def insDesc (x : Addr × Nat) : List (Addr × Nat) → List (Addr × Nat)
   | [] => [x]
-  | y :: ys => if y.2 < x.2 then x :: y :: ys else y :: insDesc x ys
+  | y :: ys => if y.2 ≤ x.2 then x :: y :: ys else y :: insDesc x ys
 
 def sortDesc (l : List (Addr × Nat)) : List (Addr × Nat) := l.foldr insDesc []
 
